@@ -55,7 +55,8 @@ def runC05P (toks : List String) : String :=
 
 /-- `FX=<letters>`: which repairs the code under test contains (a=F4 b=F23 c=F22 d=F1–F3 e=F26/27) -/
 def parseFx (s : String) : Fixes :=
-  let has (c : Char) := s.toList.contains c
+  if s = "FX=current" then Fixes.current else
+  let has (c : Char) := (s.drop 3).toString.toList.contains c
   { f4 := has 'a', f23 := has 'b', f22 := has 'c', fzomb := has 'd', fstale := has 'e', f31 := has 'k' }
 
 /-- `cp:w,cp:w,…`, `-` for the empty text -/
